@@ -13,6 +13,7 @@ package main
 
 import (
 	"bytes"
+	"context"
 	"encoding/json"
 	"fmt"
 	"os"
@@ -677,9 +678,14 @@ func main() {
 				if rf.Race {
 					b = raceBin
 				}
-				mc := exec.Command(b, "-test.run", "^TestWorker$", "-test.timeout", "0", "-mode", "minimise", "-scenario", scName, "-trace", path, "-out", path, "-tier", tier)
+				// (the minimiser stops starting executions after 90 s; one execution of a scenario with child processes
+				// and a looping change under test can take many minutes: it is given five, then the trace stays as it is)
+				mctx, mcancel := context.WithTimeout(context.Background(), 5*time.Minute)
+				mc := exec.CommandContext(mctx, b, "-test.run", "^TestWorker$", "-test.timeout", "0", "-mode", "minimise", "-scenario", scName, "-trace", path, "-out", path, "-tier", tier)
 				mc.Env = append(goEnv(), "VERIF_SCRATCH="+scratch)
-				if out, err := mc.CombinedOutput(); err != nil {
+				out, err := mc.CombinedOutput()
+				mcancel()
+				if err != nil {
 					fmt.Fprintf(os.Stderr, "check: minimisation of %s failed (%v); keeping the unminimised trace\n%s\n", path, err, tailStr(string(out), 1500))
 				} else {
 					fmt.Printf("  %s", tailStr(string(out), 400))
